@@ -101,6 +101,26 @@ theorem repair_keeps_original (ix : Idx) (n k t s : Nat) (c : List Nat) :
   simp only [Bool.false_or, bne_eq_false_iff_eq] at h
   exact filter_eq_of_length h
 
+/-- (P3) The same for whole snapshots: every file of the tree `repair` saves (`some t`) that is not marked with the
+suffix is a file of the original tree at the same path with the same content list, and every chunk of it is
+indexed; a snapshot repair leaves alone (`none`) has all chunks of all visible files indexed. -/
+theorem repair_kept_files_keep_content (ix : Idx) (root : List RT) :
+    (∀ t, repairRoot ix true root = some t → ∀ e ∈ filesList t, e.2.2 = false → e ∈ filesList root ∧ Indexed ix e) ∧
+    (repairRoot ix true root = none → ∀ e ∈ filesList root, Indexed ix e) := by
+  constructor
+  · intro t ht e he hs
+    simp only [repairRoot, Bool.not_true, Bool.false_eq_true, if_false, repList] at ht
+    by_cases hh : (repNodes ix root).2 = true
+    · simp only [hh, if_true, Option.some.injEq] at ht
+      subst ht
+      exact repNodes_kept ix root e he hs
+    · simp [hh] at ht
+  · intro h
+    simp only [repairRoot, Bool.not_true, Bool.false_eq_true, if_false, repList] at h
+    by_cases hh : (repNodes ix root).2 = true
+    · simp [hh] at h
+    · exact repNodes_unchanged_indexed ix root (by simpa using hh)
+
 /-! ## copy -/
 
 /-- (C1) When no needed id is both a tree and a data blob, after `copy` the destination holds every tree and
